@@ -17,6 +17,8 @@ where
     // VERIF_ONLY=<i> (set by hand or by --replay): run scenario i alone
     let only: Option<u64> = std::env::var("VERIF_ONLY").ok().and_then(|s| s.parse().ok());
     if let Some(i) = only.filter(|i| *i < n) {
+        let _section = crate::vstore::stall::section("scenarios");
+        running_set(i, true);
         let mut rng = Rng::for_scenario(ctx.seed, &ctx.prop, i);
         let mut o = Outcome::default();
         let r = std::panic::catch_unwind(std::panic::AssertUnwindSafe(|| f(i, &mut rng, &mut o)));
@@ -29,6 +31,7 @@ where
     } else if only.is_some() {
         return Outcome::default();
     }
+    let _section = crate::vstore::stall::section("scenarios");
     let next = AtomicU64::new(0);
     let total = Mutex::new(Outcome::default());
     let start = Instant::now();
@@ -47,11 +50,14 @@ where
                         break;
                     }
                     let mut rng = Rng::for_scenario(ctx.seed, &ctx.prop, i);
+                    running_set(i, true);
                     let r = std::panic::catch_unwind(std::panic::AssertUnwindSafe(|| {
                         let mut o = Outcome::default();
                         f(i, &mut rng, &mut o);
                         o
                     }));
+                    running_set(i, false);
+                    DONE.fetch_add(1, Ordering::SeqCst);
                     match r {
                         Ok(mut o) => {
                             tag_scenario(&mut o, i);
@@ -77,6 +83,24 @@ where
         out.info.push(format!("wall-clock budget reached after {} scenarios of {}", out.evaluations, n));
     }
     out
+}
+
+/// scenarios finished / currently inside their closure (read by the process-wide stall monitor)
+pub static DONE: AtomicU64 = AtomicU64::new(0);
+static RUNNING: Mutex<std::collections::BTreeSet<u64>> = Mutex::new(std::collections::BTreeSet::new());
+
+fn running_set(i: u64, on: bool) {
+    if let Ok(mut r) = RUNNING.lock() {
+        if on {
+            r.insert(i);
+        } else {
+            r.remove(&i);
+        }
+    }
+}
+
+pub fn running() -> Vec<u64> {
+    RUNNING.lock().map(|r| r.iter().copied().collect()).unwrap_or_default()
 }
 
 /// every witness names the scenario it came from (what `--replay` re-runs)
